@@ -571,7 +571,7 @@ def run(pid, tier, seed, replay=None):
                 mod, cfg = mc_text(name, sk, dim, "mc")
                 sc.write(name + ".tla", mod)
                 jobs.append((("s", sk, dim), sc, name, cfg_gen(cfg), dict(
-                    timeout=1800, simulate=dict(num=300 if thorough else 40, depth=30 if thorough else 16,
+                    timeout=1800, simulate=dict(num=120 if thorough else 40, depth=30 if thorough else 16,
                                                 seed=rng.randrange(1, 2**31), file=sc.path("sim/" + name)))))
         # the defects this spec was written against must be found by TLC when switched back on
         for sk, sc_, dk_ in (("RandMeth", "identity", True), ("Fourier", "value", False)):
@@ -603,7 +603,7 @@ def run(pid, tier, seed, replay=None):
                     if kind == "IncomprRandMeth" and cls != classes[0] and not thorough:
                         continue
                     work.append(("%s/%s/%d" % (kind, cls, dim), kind, sk, cls, dim, sc.dir,
-                                 (1000 if thorough else (300 if pid == "C17" else 120)), rng.randrange(2**31), tier))
+                                 (400 if thorough else (300 if pid == "C17" else 120)), rng.randrange(2**31), tier))
         for dim in (1, 2):
             work.append(("Fourier/Gaussian/%d/roundingprone" % dim, "Fourier", "Fourier", "Gaussian", dim, sc.dir,
                          (150 if thorough else 60), rng.randrange(2**31), tier))
